@@ -78,17 +78,21 @@ Proof.
   - apply IH. intros a b Ha Hb. apply Hinj; now right.
 Qed.
 
-Lemma addr_nowrap c i0 j : i0 + j < W32 -> addr_of c i0 j = (i0 + j) mod nad c.
-Proof. intros H. unfold addr_of. now rewrite (N.mod_small (i0 + j) W32). Qed.
+(* the uint32 sum idx%n + i does not overflow as long as the address count is below 2^31 *)
+Lemma addr_nowrap c i0 j : 0 < nad c -> 2 * nad c <= W32 -> j < nad c -> addr_of c i0 j = (i0 mod nad c + j) mod nad c.
+Proof.
+  intros Hn Hw Hj. unfold addr_of. pose proof (N.mod_lt i0 (nad c) ltac:(lia)).
+  now rewrite (N.mod_small (i0 mod nad c + j) W32) by lia.
+Qed.
 
-Lemma rot_nodup c i0 : 0 < nad c -> i0 + nad c <= W32 -> NoDup (rot c i0 (nad c)).
+Lemma rot_nodup c i0 : 0 < nad c -> 2 * nad c <= W32 -> NoDup (rot c i0 (nad c)).
 Proof.
   intros Hn Hw. unfold rot. apply nodup_map_inj; [apply seq_NoDup|].
   intros x y Hx Hy E. apply in_seq in Hx. apply in_seq in Hy.
   rewrite !addr_nowrap in E by lia.
   destruct (Nat.le_ge_cases x y) as [L|L].
-  - assert (i0 + N.of_nat x = i0 + N.of_nat y) by (apply (mod_inj (nad c)); auto; lia). lia.
-  - assert (i0 + N.of_nat y = i0 + N.of_nat x) by (apply (mod_inj (nad c)); auto; lia). lia.
+  - assert (i0 mod nad c + N.of_nat x = i0 mod nad c + N.of_nat y) by (apply (mod_inj (nad c)); auto; lia). lia.
+  - assert (i0 mod nad c + N.of_nat y = i0 mod nad c + N.of_nat x) by (apply (mod_inj (nad c)); auto; lia). lia.
 Qed.
 
 Lemma rot_lt c i0 k a : 0 < nad c -> In a (rot c i0 k) -> a < nad c.
@@ -98,7 +102,7 @@ Proof.
 Qed.
 
 (* ... so every address is tried exactly once *)
-Lemma rot_covers c i0 a : 0 < nad c -> i0 + nad c <= W32 -> a < nad c -> In a (rot c i0 (nad c)).
+Lemma rot_covers c i0 a : 0 < nad c -> 2 * nad c <= W32 -> a < nad c -> In a (rot c i0 (nad c)).
 Proof.
   intros Hn Hw Ha.
   set (all := map N.of_nat (seq 0 (N.to_nat (nad c)))).
@@ -111,8 +115,8 @@ Proof.
   apply Hincl. unfold all. apply in_map_iff. exists (N.to_nat a). split; [lia|]. apply in_seq. lia.
 Qed.
 
-(* at the wrap of the uint32 index the rotation breaks: 3 addresses, index 2^32-1 *)
-Lemma rot_wrap_example : rot (mkCfg 0 3) 4294967295 3 = [0; 0; 1].
+(* the index 2^32-1, where the rotation used to break before the fix d625fef *)
+Lemma rot_at_wrap_example : rot (mkCfg 0 3) 4294967295 3 = [0; 1; 2].
 Proof. vm_compute. reflexivity. Qed.
 
 (* ---------- the invariant ---------- *)
@@ -263,14 +267,13 @@ Proof.
   - exists [LConnDeadline t]. eexists. eexists. cbn. rewrite E, Hb. split; [reflexivity|]. split; [lia|]. cbn. now rewrite upd_same.
 Qed.
 
-(* the wrap: from a state whose rotation counter is 2^32-2, a dial over 3 addresses [refuse, refuse, accept]
-   tries addresses 0, 0, 1 and fails although address 2 accepts *)
-Lemma wrap_witness :
+(* the old wrap witness, now harmless: counter 2^32-2, three addresses [refuse, refuse, accept]: the dial tries 0, 1, 2 and connects *)
+Lemma wrap_witness_fixed :
   let c := mkCfg 0 3 in
   let s0 := mkDS 0 4294967294 0 (fun _ => TNew) [] in
   match drun c s0 [LStart 0 100; LDraw 0; LCheck 0; LAcqFast 0; LConnRefused 0; LCheck 0; LAcqFast 0; LConnRefused 0;
-                   LCheck 0; LAcqFast 0; LConnRefused 0] with
-  | Some s => tp s 0 = TDone (XErr 1) 100 4294967295 [0; 0; 1] 0
+                   LCheck 0; LAcqFast 0; LConnOk 0] with
+  | Some s => tp s 0 = TDone (XOk 2) 100 4294967295 [0; 1; 2] 0
   | None => False
   end.
 Proof. vm_compute. reflexivity. Qed.
@@ -294,7 +297,7 @@ Proof.
     + intros t0 Ht. cbn. rewrite !upd_other by (unfold t; lia). apply Hf. lia.
 Qed.
 
-Lemma rot_each_once : forall c i0, 0 < nad c -> i0 + nad c <= W32 ->
+Lemma rot_each_once : forall c i0, 0 < nad c -> 2 * nad c <= W32 ->
   NoDup (rot c i0 (nad c)) /\ length (rot c i0 (nad c)) = N.to_nat (nad c) /\
   (forall a, a < nad c -> In a (rot c i0 (nad c))) /\
   (forall j, j < nad c -> nth (N.to_nat j) (rot c i0 (nad c)) 0 = (i0 + j) mod nad c).
@@ -303,5 +306,5 @@ Proof.
   intros j Hj. unfold rot.
   rewrite (nth_indep _ 0 (addr_of c i0 (N.of_nat 0))) by (rewrite map_length, seq_length; lia).
   rewrite (map_nth (fun j0 : nat => addr_of c i0 (N.of_nat j0))), seq_nth by lia.
-  cbn [Nat.add]. rewrite N2Nat.id. apply addr_nowrap. lia.
+  cbn [Nat.add]. rewrite N2Nat.id. rewrite addr_nowrap by lia. apply N.add_mod_idemp_l. lia.
 Qed.
